@@ -189,8 +189,11 @@ def project(raw: list, buttons: list, motors: list, ticks=()) -> list:
         elif t == "sbegin":
             out.append({"e": "sbegin", "b": e["baud"]})
         elif t in ("w", "wp"):
+            # the body marker / what a click handler prints (a handler is user code: every button has been sampled before the first one runs)
             if e.get("v") == "body":
                 out.append({"e": "user"})
+            elif isinstance(e.get("v"), str) and e["v"].startswith("click"):
+                out.append({"e": "handler"})
             out.append({"e": "ser"})
         elif t == "servo":
             out.append({"e": "attach" if e["op"] == "attach" else "servo", "s": e["s"]})
